@@ -137,6 +137,13 @@ func (a *augmenter) Apply(cursor *astutil.Cursor) bool {
 		dots := &Dots{Dots: n.Pos()}
 		switch fieldType {
 		case goast.StmtType:
+			// "..." stands for a run of statements of a list. It
+			// cannot be the lone statement of a slot such as the
+			// init of an "if" or the statement after a label.
+			if cursor.Index() < 0 {
+				a.errf(n.Pos(), `found unexpected "..." inside %T`, cursor.Parent())
+				return false
+			}
 			cursor.Replace(&ast.ExprStmt{X: dots})
 		case goast.FieldPtrType:
 			cursor.Replace(&ast.Field{Type: dots})
